@@ -1,4 +1,5 @@
 SPECIFICATION TSpec
 CONSTANTS
   AliasKeys = FALSE
+  ArrayOneWay = FALSE
 CHECK_DEADLOCK FALSE
